@@ -199,3 +199,114 @@ theorem frame_other {α : Type} (l : List α) (i j : Nat) (f : α → α) (h : i
 
 
 end Upnp.C10
+
+namespace Upnp.C10
+open Upnp PyDict Upnp.C09
+variable [FloatOracle]
+
+/-! ### exact semantics of the loop for ANY list of assignments (no distinctness) -/
+
+/-- the variable after all assignments addressed to it, in order -/
+def varFold (tick : Nat) (pairs : List (Str × Str)) (v : Var) : Var :=
+  pairs.foldl (fun w p => if p.1 = v.decl.name then (setUpnpValue w p.2 tick).1 else w) v
+
+theorem setUpnpValue_flag_blank (v w : Var) (h : Var.blank v = Var.blank w) (text : Str) (tick : Nat) :
+    (setUpnpValue v text tick).2 = (setUpnpValue w text tick).2 := by
+  have hr : v.row = w.row := by
+    show (Var.blank v).row = (Var.blank w).row
+    rw [h]
+  have hs : v.sc = w.sc := by
+    show (Var.blank v).sc = (Var.blank w).sc
+    rw [h]
+  unfold setUpnpValue convert validate
+  rw [hr, hs]
+  split
+  · split <;> rfl
+  · split <;> rfl
+
+theorem varFold_blank (tick : Nat) (pairs : List (Str × Str)) (v : Var) :
+    Var.blank (varFold tick pairs v) = Var.blank v := by
+  unfold varFold
+  suffices H : ∀ (w : Var), Var.blank w = Var.blank v →
+      Var.blank (pairs.foldl (fun w p => if p.1 = v.decl.name then (setUpnpValue w p.2 tick).1 else w) w) = Var.blank v from H v rfl
+  induction pairs with
+  | nil => intro w hw; exact hw
+  | cons p r ih =>
+    intro w hw
+    simp only [List.foldl_cons]
+    apply ih
+    split
+    · rw [setUpnpValue_blank]; exact hw
+    · exact hw
+
+theorem find_map_pres (vars : List Var) (f : Var → Var) (m : Str) (hfn : ∀ v, (f v).decl.name = v.decl.name) :
+    (vars.map f).find? (fun v => v.decl.name = m) = (vars.find? (fun v => v.decl.name = m)).map f := by
+  induction vars with
+  | nil => rfl
+  | cons v r ih =>
+    simp only [List.map_cons, List.find?_cons, hfn]
+    by_cases h : v.decl.name = m
+    · simp [h]
+    · simp only [h, decide_false]; exact ih
+
+theorem blank_name {v w : Var} (h : Var.blank v = Var.blank w) : v.decl.name = w.decl.name := by
+  show (Var.blank v).decl.name = (Var.blank w).decl.name
+  rw [h]
+
+/-- the loop over ANY assignment list: every variable ends as the fold of the setter over the assignments
+    addressed to it, in order; the callback lists, in order, the assignments that did not raise UpnpValueError -/
+theorem applyNamed_exact (tick : Nat) (pairs : List (Str × Str)) (vars : List Var)
+    (hnd : (vars.map (·.decl.name)).Nodup) (ch : List Str) :
+    applyNamed tick pairs vars ch = (vars.map (varFold tick pairs), ch ++ listedOf pairs tick vars) := by
+  induction pairs generalizing vars ch with
+  | nil =>
+    simp only [applyNamed, listedOf, List.filterMap_nil, List.append_nil, Prod.mk.injEq, and_true]
+    symm; rw [List.map_congr_left (g := id)]
+    · simp
+    · intro v _; rfl
+  | cons p r ih =>
+    obtain ⟨n, text⟩ := p
+    simp only [applyNamed]
+    have hf1 := updateVar_fst vars n text tick hnd
+    let f : Var → Var := fun v => if v.decl.name = n then (setUpnpValue v text tick).1 else v
+    have hfb : ∀ v, Var.blank (f v) = Var.blank v := by
+      intro v; simp only [f]; split
+      · exact setUpnpValue_blank v text tick
+      · rfl
+    have hfn : ∀ v, (f v).decl.name = v.decl.name := fun v => blank_name (hfb v)
+    have hnames : ((updateVar vars n text tick).1.map (·.decl.name)) = vars.map (·.decl.name) := by
+      rw [hf1, List.map_map]
+      apply List.map_congr_left
+      intro v _; exact hfn v
+    rw [ih _ (hnames ▸ hnd)]
+    refine Prod.ext ?_ ?_
+    · simp only [hf1, List.map_map]
+      apply List.map_congr_left
+      intro v _
+      simp only [Function.comp, varFold, List.foldl_cons]
+      have hn' : ((if v.decl.name = n then (setUpnpValue v text tick).1 else v)).decl.name = v.decl.name := hfn v
+      rw [hn']
+      by_cases h : v.decl.name = n
+      · simp [h]
+      · have : ¬ n = v.decl.name := fun e => h e.symm
+        simp [h, this]
+    · have hrest : listedOf r tick (updateVar vars n text tick).1 = listedOf r tick vars := by
+        unfold listedOf
+        apply filterMap_congr'
+        intro q _
+        rw [hf1, find_map_pres vars f q.1 hfn]
+        cases vars.find? (fun v => v.decl.name = q.1) with
+        | none => rfl
+        | some v =>
+          simp only [Option.map_some]
+          rw [setUpnpValue_flag_blank (f v) v (hfb v)]
+      rw [hrest]
+      simp only [updateVar_snd, listedOf, List.filterMap_cons]
+      cases hfind : vars.find? (fun v => v.decl.name = n) with
+      | none => simp
+      | some v =>
+        by_cases hflag : (setUpnpValue v text tick).2 = true
+        · simp [hflag]
+        · simp [hflag]
+
+end Upnp.C10
